@@ -1516,13 +1516,28 @@ Lemma shape_single_escape k e :
   is_c CEscape e = true -> shape_cat k [e] = true -> k = TEscape.
 Proof.
   intros He H. apply is_c_true in He.
-  destruct k; try reflexivity; exfalso; cbn [shape_cat] in H;
-    try discriminate H;
-    try (unfold text_c, is_c, after_spacers, drop_blanks, drop_eol, is_c in H; rewrite He in H;
-         vm_compute in H; discriminate H).
-  (* PunctuationCommandName: every sizing command has at least two characters *)
-  apply mem_str_In in H. pose proof points_second_not_escape_b as B.
-  rewrite forallb_forall in B. specialize (B _ H). discriminate B.
+  assert (F1 : is_c CSpacer e = false) by (unfold is_c; rewrite He; reflexivity).
+  assert (F2 : is_c CEndOfLine e = false) by (unfold is_c; rewrite He; reflexivity).
+  assert (F3 : text_c e = false) by (unfold text_c; rewrite He; reflexivity).
+  assert (F4 : is_c CComment e = false) by (unfold is_c; rewrite He; reflexivity).
+  assert (F5 : is_c CMathSwitch e = false) by (unfold is_c; rewrite He; reflexivity).
+  assert (F6 : is_c CLetter e = false) by (unfold is_c; rewrite He; reflexivity).
+  assert (F7 : after_spacers [e] = [e]).
+  { unfold after_spacers. cbn [drop_blanks]. rewrite F1. cbn [drop_eol]. rewrite F2.
+    cbn [drop_blanks]. rewrite F1. reflexivity. }
+  destruct (tc_eq_dec k TPunctuationCommandName) as [Ep|Np].
+  { (* every sizing command has at least two characters *)
+    exfalso. subst k. cbn [shape_cat] in H.
+    apply mem_str_In in H. pose proof points_second_not_escape_b as B.
+    rewrite forallb_forall in B. specialize (B _ H). discriminate B. }
+  destruct k; try reflexivity; try congruence; exfalso; cbn [shape_cat forallb] in H;
+    first [ discriminate H
+          | rewrite He in H; vm_compute in H; discriminate H
+          | rewrite F7 in H; discriminate H
+          | rewrite F3 in H; discriminate H
+          | rewrite F4 in H; discriminate H
+          | rewrite F5 in H; discriminate H
+          | rewrite F6 in H; discriminate H ].
 Qed.
 
 Lemma texts_nil_shaped a : shaped a -> texts a = [] -> a = [].
